@@ -327,10 +327,20 @@ def build(spec):
     return o
 
 
+_FLAT = []      # containers being flattened (a container reachable from its own contents is listed once)
+
+
 def flatten(obj, pre, out):
     if isinstance(obj, dict):          # FDict and AttrDict containers (dict VALUES are not generated)
-        for k, v in dict.items(obj):
-            flatten(v, pre + [ek(k)], out)
+        if any(o is obj for o in _FLAT):
+            out.append([pre, "<the container itself>"])
+            return
+        _FLAT.append(obj)
+        try:
+            for k, v in dict.items(obj):
+                flatten(v, pre + [ek(k)], out)
+        finally:
+            _FLAT.pop()
     elif isinstance(obj, FList):
         for i, v in enumerate(obj):
             flatten(v, pre + [i], out)
@@ -348,6 +358,10 @@ def flatten(obj, pre, out):
         out.append([pre, "FunSum"])
     elif obj is fsum2:
         out.append([pre, "FunSum2"])
+    elif isinstance(obj, BaseRef):
+        out.append([pre, "<ref " + str(obj) + ">"])
+    elif hasattr(obj, "__self__") and hasattr(obj, "__func__"):
+        out.append([pre, "<bound method " + obj.__func__.__qualname__ + ">"])
     else:
         out.append([pre, obj if isinstance(obj, int) and not isinstance(obj, bool) else repr(obj)])
 
@@ -363,6 +377,8 @@ def mkref(roots, path):
         if kind == "i" and n == 0 and ROOTKIND.get(path[0]) == "refattr" and isinstance(key, str) and key.isidentifier() \
                 and not key.startswith("_"):
             r = getattr(r, key)          # Manager.refattr: attribute access on the root is item access
+        elif kind == "k":
+            r = r[mkref(roots, key)]     # a computed key: the item whose key is the current value of another location
         else:
             r = r[dk(key)] if kind == "i" else getattr(r, key)
     return r
@@ -919,6 +935,8 @@ def pickle_check(m, roots_data, followups):
 
         def walk(o, pre):
             out.append((pre, type(o).__name__))
+            if pre.endswith("/_back"):
+                return
             if isinstance(o, dict):
                 for k, v in dict.items(o):
                     walk(v, pre + "/" + str(ek(k)))
@@ -1218,7 +1236,21 @@ def run_case(case, opts):
                 m.unregister(tid)
             elif kind == "load":
                 dump = [(str(mkref(roots, p)), str(mkexpr(roots, e))) for p, e in op[1]]
-                m.load(dump, overwrite=op[2])
+                if len(op) > 3 and op[3] == "copy":
+                    # the same definitions arrive through copy_expr_from: another manager (same labels, containers of its own)
+                    # holds them, and they are copied label by label
+                    import copy
+                    ms = xd.Manager()
+                    make_roots(ms, copy.deepcopy(roots_data))
+                    ms.load(dump, overwrite=op[2])
+                    labels = []
+                    for p, _ in op[1]:
+                        if p[0] not in labels:
+                            labels.append(p[0])
+                    for label in labels:
+                        m.copy_expr_from(ms, label, overwrite=op[2])
+                else:
+                    m.load(dump, overwrite=op[2])
             elif kind == "freeze":
                 m.freeze_tree()
             elif kind == "unfreeze":
@@ -1230,7 +1262,20 @@ def run_case(case, opts):
             elif kind == "cleanup":
                 m.cleanup()
             elif kind == "picklecheck":
-                obs["pickle"] = pickle_check(m, roots_data, op[1])
+                back = []
+                if len(op) > 2 and op[2]:
+                    # the container is made reachable from its own contents (it stores itself / its own reference / a bound
+                    # method of itself), as a namespace that keeps a handle on itself does; picklable by the standard protocol
+                    for label, data in roots_data.items():
+                        if type(data).__name__ in ("AttrDict", "FAttrDict"):
+                            val = {"self": data, "ref": roots[label], "method": getattr(data, "total", None) or data}[op[2]]
+                            dict.__setitem__(data, "_back", val)
+                            back.append(data)
+                try:
+                    obs["pickle"] = pickle_check(m, roots_data, op[1])
+                finally:
+                    for data in back:
+                        dict.__delitem__(data, "_back")
             elif kind == "setattr_raw":
                 tgt = mkref(roots, op[1])
                 obs["in_dir"] = op[2] in dir(tgt)          # a member of the reference object itself (known finding C20)
